@@ -255,6 +255,31 @@ def _gen_pdfs():
             "gen/plain.pdf": base}
 
 
+def _gen_office():
+    """Pairs of generated documents of one format that differ in an optional part (comments, notes, images): what a per-class or module-level cache would carry over."""
+    from vf.gen import ooxml, odf
+    from vf.gen.tokens import make
+
+    def doc(n, comments=False, cref=False):
+        blocks = [{"k": "p", "inl": [{"k": "t", "tok": make("B", 7000 + n), "sty": 0}] + ([{"k": "cref", "id": 0}] if cref else []), "h": None},
+                  {"k": "p", "inl": [{"k": "t", "tok": make("B", 7100 + n), "sty": 0}], "h": None}]
+        d = {"units": [{"blocks": blocks, "notes": None}, {"blocks": [{"k": "p", "inl": [{"k": "t", "tok": make("B", 7200 + n), "sty": 0}], "h": None}], "notes": None}], "props": {}}
+        if comments:
+            d["comments"] = [[{"k": "t", "tok": make("X", 7300 + n), "sty": 0}]]
+        return d
+    out = {}
+    try:
+        out["gen/comments.pptx"] = ooxml.render_pptx(doc(1, comments=True))
+        out["gen/plain.pptx"] = ooxml.render_pptx(doc(2))
+        out["gen/comments.docx"] = ooxml.render_docx(doc(3, comments=True, cref=True))
+        out["gen/plain.docx"] = ooxml.render_docx(doc(4))
+        out["gen/plain.odt"] = odf.render_odt(doc(5))
+        out["gen/plain.odp"] = odf.render_odp(doc(6))
+    except Exception as e:  # noqa
+        raise RuntimeError(f"generator for the office pairs failed: {type(e).__name__}: {e}")
+    return out
+
+
 def build_pool() -> dict[str, bytes]:
     from vf.gen import cidpdf
     pool = {}
@@ -266,6 +291,7 @@ def build_pool() -> dict[str, bytes]:
     pool["gen/cid-b.pdf"] = cidpdf.cid_pdf(font, [3, 27, 28, 4], {3: "A", 4: "B", 27: None, 28: None})
     pool["gen/cid-c.pdf"] = cidpdf.cid_pdf(font, [5, 13, 6], {5: "C", 6: "D", 13: None}, pages=2)
     pool.update(in_fresh_fork(_gen_pdfs))
+    pool.update(_gen_office())
     pool["gen/truncated.docx"] = pool["modern_ms/headings.docx"][:2000]
     pool["gen/truncated.pdf"] = pool["pdf/sample.pdf"][:1500]
     pool["gen/truncated.xls"] = pool["legacy_ms/mwe.xls"][:3000]
@@ -275,7 +301,8 @@ def build_pool() -> dict[str, bytes]:
     return pool
 
 
-PAIRS = [("gen/cid-a.pdf", "gen/cid-b.pdf"), ("gen/aes256r5-empty.pdf", "gen/aes128-empty.pdf"), ("gen/cid-c.pdf", "gen/cid-a.pdf")]
+PAIRS = [("gen/cid-a.pdf", "gen/cid-b.pdf"), ("gen/aes256r5-empty.pdf", "gen/aes128-empty.pdf"), ("gen/cid-c.pdf", "gen/cid-a.pdf"), ("gen/comments.pptx", "gen/plain.pptx"),
+         ("gen/comments.docx", "gen/plain.docx"), ("modern_ms/pptx_table.pptx", "gen/plain.pptx"), ("open_office/slide_with_notes.odp", "gen/plain.odp"), ("open_office/headings.odt", "gen/plain.odt")]
 
 
 def ext_of(name: str) -> str:
@@ -456,7 +483,7 @@ def cold_pairs(ctx: Ctx):
     names = sorted({x for p in PAIRS for x in p} | {"gen/aes128-pw.pdf", "gen/rc4-empty.pdf", "gen/plain.pdf", "pdf/sample.pdf", "gen/truncated.pdf"})
     base = {n: in_fresh_fork(extract_digest, pool[n], n, "exhaust") for n in names}
     cnt = 0
-    pairs = list(itertools.permutations(names, 2))
+    pairs = [(a, b) for a, b in itertools.permutations(names, 2) if ext_of(a) == ext_of(b)]
     for i, (a, b) in enumerate(pairs):
         if i % ctx.nshards != ctx.shard:
             continue
